@@ -2140,6 +2140,8 @@ def sym_array_equal(a1, a2, equal_nan=False):
     """np.array_equal: same shape and all entries equal (exact ALL-reduction; same view of the same buffer: True)"""
     if not _has_sym(a1, a2):
         return _np.array_equal(a1, a2, equal_nan=equal_nan)
+    if a1 is None or a2 is None or isinstance(a1, str) or isinstance(a2, str):
+        return False  # (numpy compares a 0-d object array holding None / text with numbers: never equal)
     a, b = as_symarr(a1), as_symarr(a2)
     if a.ndim != b.ndim:
         return False
